@@ -163,6 +163,26 @@ SMALL_CAT = {1, 2, 3, 5, 6}
 BASE_EXPR = dict(MaxNodes=1, UseCat=True, UseVal=False, CatIds=ALL_CAT, ElemNames={"a", "b"}, AttrNames=set(), TextVals={"1"}, WithComment=False)
 
 
+VM2_AXES = {"child", "descendant", "following-sibling", "ancestor", "self", "parent", "preceding-sibling", "following", "preceding",
+            "descendant-or-self", "ancestor-or-self"}
+VM2_BASE = dict(MaxNodes=1, UseCat=True, CatIds={1, 3, 5}, ElemNames={"a", "b"}, TextVals={"1"}, HostAxes=VM2_AXES,
+                PredAxes={"child", "ancestor", "following", "preceding-sibling", "descendant", "parent"}, Parts={1, 2, 3, 4}, Deviations=set())
+# each re-introduces in the MODEL a defect the pinned tree had; TLC must refute VM2Refines
+VM2_DEVIATIONS = [
+    ("smart-through-filter", {}), ("anc-table-not-reset", {}), ("dod-level-not-reset", {}), ("foll-prec-not-reset", {}),
+    ("merge-not-reset", dict(MaxNodes=6, UseCat=False, CatIds=set(), ElemNames={"a"}, TextVals=set(), HostAxes={"child"},
+                             PredAxes={"child"}, Parts={1})),
+]
+
+
+def vm2_stage(run, parts, tag):
+    q = run.tier == "quick"
+    c = consts(VM2_BASE, MaxNodes=(3 if tag == "C02" else 4) if q else 4, CatIds={3, 5} if q else ALL_CAT, Parts=parts)
+    r = run.tlc("MC_VM2", c, invariants=("VM2Refines", "Emit"), name="vm2-refines-denotation")
+    stats, drift = run.replay(r["outfile"], kind="vm", render="full", stage="vm2-conformance")
+    run.drift = getattr(run, "drift", []) + drift
+
+
 def run_C02(run):
     q = run.tier == "quick"
     # (1) one atomic predicate on a host step: host axis x predicate axis x atom form
@@ -188,6 +208,15 @@ def run_C02(run):
     # (5c) a predicate-carrying step continued by a further step on every axis (and through '//')
     run.gen_and_replay("MC_Expr", consts(BASE_EXPR, Family="C02cont", MaxNodes=1 if q else 4, UseCat=True, CatIds={3, 5} if q else ALL_CAT),
                        name="preds-then-steps", kind="sel-set")
+    # (5d) XQueryVM2: the implementation-shaped model of the predicate pipeline (filter / merge rewrite / group, Evaluate
+    #      resets, cursor save/restore).  TLC checks it delivers the denotation (VM2Refines); the engine's delivery sequence
+    #      and navigator movements are compared with the model's (a difference is MODEL DRIFT: reported, never a verdict)
+    vm2_stage(run, {1, 3, 4}, "C02")
+    for dev, cfgd in VM2_DEVIATIONS:
+        r = run.tlc("MC_VM2", consts(VM2_BASE, Deviations={dev}, **cfgd), invariants=("VM2Refines",),
+                    name="vm2-deviation-" + dev, out=False, allow_violation=True)
+        if "Invariant VM2Refines is violated" not in r["log"]:
+            raise ToolingError("XQueryVM2 does not refute the re-introduced defect %s: vacuous model" % dev)
     # (6) Flow B: seeded documents up to 14 nodes, paths of up to 3 steps carrying up to 3 predicates of nesting depth 2
     tr = run.drive("preds", 2500 if q else 40000, extra=["-nodes", "14"])
     run.validate_batch(tr, "preds-flowB")
@@ -200,6 +229,8 @@ def run_C03(run):
     run.gen_and_replay("MC_Expr", consts(ec, Family="C03a"), name="pos-first", kind="sel-set")
     # (2) positional predicate followed by a boolean predicate
     run.gen_and_replay("MC_Expr", consts(ec, Family="C03b", MaxNodes=4 if q else 5), name="pos-then-bool", kind="sel-set")
+    # (2b) XQueryVM2 on numeric predicates (position counters, positmap, merge rewrite, (path)[n] re-rooting)
+    vm2_stage(run, {2, 3, 4}, "C03")
     # (3) (flat path)[n] and (//name)[n]
     run.gen_and_replay("MC_Expr", consts(ec, Family="C03paren"), name="paren-nth", kind="sel-set")
 
